@@ -159,6 +159,9 @@ class Client:
     def shutdown_wr(self):
         self.conn.client_shutdown_wr()
 
+    def send_oob(self):
+        self.conn.client_send_oob()
+
     def reset(self):
         self.conn.client_reset()
 
